@@ -52,7 +52,58 @@ def import_repo():
     import warnings
 
     warnings.simplefilter("ignore")
+    pollute(bibtexparser)
     return bibtexparser
+
+
+_POLLUTED = False
+
+
+def pollute(bib):
+    """Every check runs in a process in which the public API has already been USED and the values it handed out have been
+    EDITED by the caller, as any application may do.  A change that keeps state between calls (a cached default stack, a
+    memoised result, a module-level set that is mutated, a mutable default argument) then shows up in the checks proper,
+    which otherwise only ever make fresh, independent calls."""
+    global _POLLUTED
+    if _POLLUTED:
+        return
+    _POLLUTED = True
+    m = bib.middlewares
+    M = bib.model
+    try:
+        for factory in (m.default_parse_stack, m.default_unparse_stack):
+            for flag in (True, False):
+                st = factory(allow_inplace_modification=flag)
+                if isinstance(st, list):
+                    st.clear()
+                    st.append("not a middleware")
+        nm = m.names
+        p = nm.parse_single_name_into_parts("Jean~Paul de la Tour, Jr, Ab~Cd", strict=False)
+        for part in (p.first, p.von, p.last, p.jr):
+            part.append("edited")
+        r = nm.split_multiple_persons_names("x~and~y and {a and b} and z\\ and w")
+        r.append("edited")
+        lib = bib.parse_string("@string{s = {v}}\n@article{k, author = {A B and C~D, E}, title = s, month = 3}\n@misc{m}\n% c\n",
+                               append_middleware=[m.SeparateCoAuthors(), m.SplitNameParts(), m.MonthIntMiddleware()])
+        for b in lib.blocks:
+            b.parser_metadata["edited"] = True
+            if isinstance(b, M.Entry):
+                b.fields.append(M.Field("edited", "x"))
+                b.key += "-edited"
+        text = bib.write_string(lib)
+        fmt = bib.BibtexFormat()
+        fmt.indent, fmt.value_column, fmt.block_separator, fmt.trailing_comma = "<>", 33, "<sep>", True
+        bib.write_string(bib.parse_string(text), bibtex_format=fmt)
+        e = M.Entry("a", "k", [])
+        e.fields.append(M.Field("edited", "x"))
+        e2 = M.Entry("a", "k2", [])
+        if e2.fields:
+            pass  # a shared default would show in the checks
+        L = bib.Library()
+        L.add(M.Preamble("edited"))
+        L.blocks.append(M.Preamble("edited behind the library's back"))
+    except Exception:  # noqa: the prelude must never fail a check by itself
+        pass
 
 
 # ----------------------------------------------------------------------------
